@@ -388,6 +388,17 @@ Definition delete (id : uid) : M :=
            | Some p => txn (deletePlan p) d
            end.
 
+(* Create / Delete when the COMMIT may fail (txn_f): the error of the commit is the result of the call *)
+Definition create_f (commit_fails : bool) (p : spln) : M :=
+  fun d => if uid_nil (sp_id p) then (d, false)
+           else if exists_plan (sp_id p) d then (d, false)
+           else txn_f commit_fails (commitPlan_body p) d.
+Definition delete_f (commit_fails : bool) (id : uid) : M :=
+  fun d => match read id d with
+           | None => (d, false)
+           | Some p => txn_f commit_fails (deletePlan p) d
+           end.
+
 (* ================= operations and runs ================= *)
 Definition step (o : op) : M :=
   match o with
